@@ -54,11 +54,6 @@ type mapOrder struct {
 	nSyncMap int
 }
 
-// functions whose map loop is admitted by name: one symbol, one reason.
-var mapOrderAdmitted = map[string]string{
-	"workspace.Workspace.removeUnreachableLocked": "collects keys to delete, then deletes by key: deletions by key commute (index counters decrement, keyed filters, delete); final state independent of order",
-}
-
 // total sorts that sanitise a slice collected from a map
 var totalSorts = map[string]bool{
 	"sort.Strings": true, "sort.Ints": true, "sort.Float64s": true, "slices.Sort": true,
@@ -260,8 +255,17 @@ func (m *mapOrder) conclude(fd *ast.FuncDecl, fname string, info *types.Info, de
 		m.c.ok("M-ORDER", fname, desc, pos, fmt.Sprintf("%d effects, all order-insensitive relative to this loop", len(effs)))
 		return
 	}
-	if why, ok := mapOrderAdmitted[fname]; ok {
-		m.c.ok("M-ORDER", fname, desc, pos, "admitted by name: "+why)
+	// keys collected into a local slice only to be removed one by one afterwards (role: the elements are handed
+	// to the workspace index's removal method): removals by key commute, the final state does not depend on
+	// the order in which the keys were collected
+	allRemoval := true
+	for _, e := range sensitive {
+		if !(e.Kind == effAppend && !e.Indexed && e.Target != nil && m.consumedByKeyedRemoval(fd, info, e.Target, end)) {
+			allRemoval = false
+		}
+	}
+	if allRemoval {
+		m.c.ok("M-ORDER", fname, desc, pos, "admitted by role: collects keys to delete, then deletes by key: deletions by key commute (index counters decrement, keyed filters, delete); final state independent of order")
 		return
 	}
 	ssaName := strings.Replace(fname, ".", ".(*", 1)
@@ -286,6 +290,113 @@ func (m *mapOrder) conclude(fd *ast.FuncDecl, fname string, info *types.Info, de
 		parts = append(parts, s)
 	}
 	m.c.finding("M-ORDER", fname, desc, pos, "map iteration order reaches an observable value without a total sort: "+strings.Join(parts, "; "))
+}
+
+// indexRemovalMethod (role): the method of the workspace index taking (path, *FileIndex) that deletes the
+// per-file slot `recv.F[path]`.
+func indexRemovalMethod(p *Prog) *ast.FuncDecl {
+	pk := p.ByRel["internal/workspace"]
+	if pk == nil {
+		return nil
+	}
+	info := pk.TypesInfo
+	var out *ast.FuncDecl
+	for _, f := range pk.Syntax {
+		for _, d := range f.Decls {
+			fd, ok := d.(*ast.FuncDecl)
+			if !ok || fd.Recv == nil || fd.Body == nil || fd.Type.Params == nil {
+				continue
+			}
+			var pathObj types.Object
+			hasFI := false
+			for _, fl := range fd.Type.Params.List {
+				t := info.TypeOf(fl.Type)
+				for _, n := range fl.Names {
+					if t != nil && strings.HasSuffix(types.TypeString(t, nil), "workspace.FileIndex") {
+						hasFI = true
+					} else if b, ok := t.Underlying().(*types.Basic); ok && b.Kind() == types.String {
+						pathObj = info.Defs[n]
+					}
+				}
+			}
+			if !hasFI || pathObj == nil {
+				continue
+			}
+			recv := recvObj(info, fd)
+			ast.Inspect(fd.Body, func(x ast.Node) bool {
+				if call, ok := x.(*ast.CallExpr); ok && identOf(call.Fun).Name == "delete" && len(call.Args) == 2 {
+					if _, onRecv := rootField(info, call.Args[0], recv); onRecv && info.Uses[identOf(call.Args[1])] == pathObj {
+						out = fd
+					}
+				}
+				return true
+			})
+		}
+	}
+	return out
+}
+
+func callsDecl(p *Prog, from *ast.FuncDecl, target *ast.FuncDecl, depth int) bool {
+	if from == nil || from.Body == nil || depth > 2 {
+		return false
+	}
+	if from == target {
+		return true
+	}
+	info := p.InfoFor(from)
+	found := false
+	ast.Inspect(from.Body, func(x ast.Node) bool {
+		if call, ok := x.(*ast.CallExpr); ok && !found {
+			if o, ok := calleeOf(info, call).(*types.Func); ok {
+				if d := p.declOf[o]; d != nil && callsDecl(p, d, target, depth+1) {
+					found = true
+				}
+			}
+		}
+		return true
+	})
+	return found
+}
+
+// consumedByKeyedRemoval: obj is a slice local to fd; after `after` it is only ranged over, and the element
+// variable of that loop is handed to the workspace index's removal method.
+func (m *mapOrder) consumedByKeyedRemoval(fd *ast.FuncDecl, info *types.Info, obj types.Object, after token.Pos) bool {
+	if obj.Pos() < fd.Pos() || obj.Pos() > fd.End() {
+		return false
+	}
+	rem := indexRemovalMethod(m.p)
+	if rem == nil {
+		return false
+	}
+	ok, removed := true, false
+	ast.Inspect(fd.Body, func(n ast.Node) bool {
+		if rs, isR := n.(*ast.RangeStmt); isR && rs.Pos() > after && info.Uses[identOf(rs.X)] == obj {
+			var el types.Object
+			if rs.Value != nil {
+				el = info.Defs[identOf(rs.Value)]
+			}
+			ast.Inspect(rs.Body, func(y ast.Node) bool {
+				if call, isC := y.(*ast.CallExpr); isC && el != nil {
+					for _, a := range call.Args {
+						if info.Uses[identOf(a)] == el {
+							if o, isF := calleeOf(info, call).(*types.Func); isF {
+								if d := m.p.declOf[o]; d != nil && callsDecl(m.p, d, rem, 0) {
+									removed = true
+								}
+							}
+						}
+					}
+				}
+				return true
+			})
+			return false // uses inside this loop are the consumption itself
+		}
+		if id, isId := n.(*ast.Ident); isId && id.Pos() > after && info.Uses[id] == obj {
+			ok = false // any other use (return, call argument, index) is not covered by the argument
+		}
+		return true
+	})
+	return ok && removed
 }
 
 // declReachable maps "pkg.Recv.Func" onto the SSA naming used by reachableDecls.
